@@ -13,6 +13,7 @@ package simrt
 
 import (
 	"fmt"
+	"os"
 	"runtime"
 	"sort"
 	"sync"
@@ -210,7 +211,7 @@ func Begin(w *World, seed uint64, explicit []Decision) {
 	w.recorded = make([]Decision, 0, 1024)
 	w.SwitchLog = make([]int32, 0, 4096)
 	if w.TraceFull {
-		w.trace = make([]Event, 0, 1<<16)
+		w.trace = make([]Event, 0, 1<<20)
 	}
 	w.Digest = 1469598103934665603
 	w.turn = 0
@@ -228,6 +229,17 @@ func End() []Decision {
 	world = nil
 	if w == nil {
 		return nil
+	}
+	if w.TraceFull {
+		if path := os.Getenv("VERIF_TRACE_OUT"); path != "" {
+			if f, err := os.OpenFile(path, os.O_APPEND|os.O_CREATE|os.O_WRONLY, 0o644); err == nil {
+				fmt.Fprintf(f, "# world events=%d digest=%016x\n", w.Events, w.Digest)
+				for _, e := range w.trace {
+					fmt.Fprintf(f, "%d t%d %c %d %d\n", e.Seq, e.Task, rune(e.Kind), e.A, e.B)
+				}
+				f.Close()
+			}
+		}
 	}
 	return w.recorded
 }
